@@ -95,6 +95,9 @@ func (v *Verifier) VerifyFunc(f *ssa.Function, fc *FuncContract) (res *FuncResul
 		env := c.entryEnv(st, fr)
 		for _, cl := range fc.Clauses {
 			if cl.Kind == "requires" {
+				if cl.Assumed {
+					c.V.assumptions["assumed precondition of "+c.Key+" (the body is verified under it, callers are not asked for it): "+cl.Src] = true
+				}
 				st.assume(env.evalBool(cl.E))
 			}
 		}
@@ -127,11 +130,28 @@ func (c *Ctx) flowObligations(fr *Frame) {
 			continue
 		}
 		bad := v.guardViolations(g)
-		src := "guarded " + g.Src
+		src, nm := "guarded "+g.Src, "lock-discipline"
+		if g.Released {
+			src, nm = "released "+g.Src, "lock-released"
+		}
+		if g.Observer != "" {
+			src, nm = "unlocked "+g.Src, "unlocked-reading"
+		}
 		if len(bad) > 0 {
 			src += "  -- VIOLATED: " + strings.Join(bad, "; ")
 		}
-		c.oblige(newState(), fr, "guarded", shortOwner(g.Lock), fmt.Sprintf("lock-discipline-%d", gi+1), fr.fn.Pos(), mkBool(len(bad) == 0), g.Props, src)
+		// numbered among the clauses of the same kind on the same lock (stable when clauses on other locks come and go)
+		n := 0
+		for _, og := range v.specs.Guards[:gi+1] {
+			if og.Lock == g.Lock && og.Released == g.Released && og.Observer == g.Observer {
+				n++
+			}
+		}
+		if g.Released || g.Observer != "" {
+			c.oblige(newState(), fr, "guarded", shortOwner(g.Lock), nm, fr.fn.Pos(), mkBool(len(bad) == 0), g.Props, src)
+		} else {
+			c.oblige(newState(), fr, "guarded", shortOwner(g.Lock), fmt.Sprintf("%s-%d", nm, n), fr.fn.Pos(), mkBool(len(bad) == 0), g.Props, src)
+		}
 	}
 	var fields []string
 	for k := range v.specs.Secrets {
@@ -559,7 +579,9 @@ func (v *Verifier) guardHome(g *GuardSpec) string {
 		}
 		ok := false
 		for _, p := range g.Props {
-			if hasProp(fc.Props, p) {
+			// under `check Cnn` the home is a function verified for Cnn (so a clause tagged with several properties is
+			// reported under each of them)
+			if hasProp(fc.Props, p) && (v.curProp == "" || !hasProp(g.Props, v.curProp) || p == v.curProp) {
 				ok = true
 			}
 		}
